@@ -405,7 +405,7 @@ def oracle_cases(rng, tier):
     cases = []        # (key-stem, kind, params)
     thorough = tier == 'thorough'
     # ---- trees ---------------------------------------------------------------
-    nmax = 6 if thorough else 5
+    nmax = 7 if thorough else 5
     for T in O.all_trees(nmax):
         H = O.labelled(T, rng)
         desc = O.graph_desc(H); n = H.order(); m = H.number_of_edges()
@@ -429,20 +429,22 @@ def oracle_cases(rng, tier):
                                                                                'tw': {'attr': 'weight', 'values': [2.0, 0.5, 1.5]}}))
     cases.append(('SIR_pair_based_pure_IC/nodelist-order', 'tree', {'graph': dP, 'seed': 0, 'tau': 1.0, 'gamma': 1.0, 'tmax': 4.0, 'tcount': 9, 'nodelist': [2, 0, 3, 1]}))
     # ---- final sizes -----------------------------------------------------------
-    for i in range(40 if thorough else 10):
+    for i in range(120 if thorough else 10):
         Pk = rand_Pk(rng); pk = {str(k): float(v) for k, v in Pk.items()}
         rho = rng.choice([0.05, 0.1, 0.25, 0.5]); N = rng.choice([10, 100, 1000])
         for n in (0, 1, 2, 5, 17):
-            cases.append(('Attack_rate_discrete/exact', 'attack_discrete', {'Pk': pk, 'N': N, 'p': rng.choice([0.125, 0.25, 0.5, 0.75, 1.0]), 'rho': rho, 'n': n}))
+            cases.append(('Attack_rate_discrete/exact', 'attack_discrete', {'Pk': pk, 'N': N, 'p': rng.choice([0.125, 0.25, 0.5, 0.75, 0.875]), 'rho': rho, 'n': n}))
         cases.append(('Attack_rate_discrete/limit', 'attack_limit', {'kind': 'discrete', 'Pk': pk, 'N': N, 'p': rng.choice([0.25, 0.5, 0.75]), 'rho': rho}))
         cases.append(('Attack_rate_cts_time/limit', 'attack_limit', {'kind': 'cts', 'Pk': pk, 'N': N, 'tau': rng.choice([0.25, 0.5, 1.0, 2.0]), 'gamma': rng.choice([0.5, 1.0, 2.0]), 'rho': rho, 'tmax': 200.0}))
-    for i in range(20 if thorough else 6):
+    for i in range(80 if thorough else 6):
         Pk = rand_Pk(rng); pk = {str(k): float(v) for k, v in Pk.items()}
         Sk0 = {str(k): rng.choice([0.5, 0.75, 0.875, 1.0]) for k in Pk}
-        phiS0 = rng.choice([0.5, 0.625, 0.75]); phiR0 = rng.choice([0.0625, 0.125, 0.25])
+        phiS0 = rng.choice([0.5, 0.625, 0.75]); phiR0 = rng.choice([0.0625, 0.125])      # phiS0 + phiR0 < 1: some edges lead to infected nodes (else theta = 1 is a second rest point)
         base = dict(Pk=pk, Sk0=Sk0, N=rng.choice([10, 100]), phiS0=phiS0, phiR0=phiR0, R0=rng.choice([0.0, 1.0]))
         cases.append(('Attack_rate_discrete/exact-Sk0-phiS0-phiR0', 'attack_general', dict(base, kind='discrete', p=rng.choice([0.25, 0.5, 0.75]), n=rng.choice([1, 2, 5, 17]))))
         cases.append(('Attack_rate_cts_time/limit-Sk0-phiS0-phiR0', 'attack_general', dict(base, kind='cts', tau=rng.choice([0.5, 1.0, 2.0]), gamma=rng.choice([0.5, 1.0]))))
+    # fixed probe: p = 1 with isolated nodes in the degree distribution; theta underflows to 0.0 and the k = 0 term evaluates 0.0**-1
+    cases.append(('Attack_rate_discrete/degree0-theta-underflow', 'attack_discrete', {'Pk': {'0': 0.5, '5': 0.5}, 'N': 1000, 'p': 1.0, 'rho': 0.25, 'n': 17}))
     G = O.labelled(O.hetero_graph(rng, 12), rng); dG = O.graph_desc(G)
     for kind, rates in (('discrete', {'p': 0.5}), ('cts', {'tau': 0.75, 'gamma': 1.0})):
         cases.append(('Attack_rate_%s_from_graph/rho' % ('discrete' if kind == 'discrete' else 'cts_time'), 'attack_from_graph', dict(graph=dG, kind=kind, mode='rho', rho=0.25, **rates)))
@@ -615,7 +617,7 @@ def run(run, tier):
                      'every single-seed placement (shuffled string/tuple labels), edge+node weights, one initially recovered node; Attack_rate_discrete(n) vs EBCM_discrete row n; '
                      'Attack_rate_* vs t->infinity of EBCM/EBCM_discrete; tau=0 and gamma=0 on all %d graph entry points (rho form) on heterogeneous and regular graphs; each theorem of '
                      'Props/C08.v re-evaluated numerically on the Python right-hand sides.  Tolerance 1e-4*N for curves, rel 1e-9 for point values.  Non-trivial = not skipped for '
-                     'non-convergence.' % (6 if thorough else 5, len(O.GRAPH_SIR + O.GRAPH_SIS)),
+                     'non-convergence.' % (7 if thorough else 5, len(O.GRAPH_SIR + O.GRAPH_SIS)),
                      samples, {'distribution': dict(dist, oracle_cases=stats, skipped_not_converged=skipped),
                                'validated_numerically_only': ['pair-based tree exactness (cited: Sharkey et al. 2015)', 't->infinity limits (convergence)',
                                                               'tau=0 / gamma=0 for heterogeneous_pairwise, effective_degree, individual_based, pair_based, pref_mix, heterogeneous_meanfield gamma=0'],
